@@ -8,6 +8,7 @@ ok=""
 for n in 1 2 3; do
   [ -f $out/patch$n.diff ] || { echo "$pid-$tag-$n: no patch"; continue; }
   log=/tmp/seedauto.$pid.$n.log
+  [ -f $out/demo$n.in ] && [ ! -f $out/demo$n.input ] && cp $out/demo$n.in $out/demo$n.input
   if [ -f $out/demo$n.calc ]; then
     LINES_MAX=6 ./seedverify.sh $out $n > $log 2>&1
     if grep -q "build+vet: ok" $log && grep -q "build -tags verif: ok" $log && grep -q "repo tests failing lines: 0" $log && grep -q "DEMO-DIFFERS: yes" $log; then v=CONFIRMED; ok="$ok $n"; else v=REJECTED; fi
@@ -18,6 +19,9 @@ for n in 1 2 3; do
     w=$(sed -n '/WITHOUT the change/,/repo tests/p' $log | grep -c "^ok")
     f=$(sed -n '/WITH the change:/,$p' $log | grep -c "^FAIL\|^--- FAIL\|^panic")
     if [ "$w" -ge 1 ] && [ "$f" -ge 1 ] && grep -q "failing lines with the change: 0" $log && grep -q "build+vet: ok" $log && grep -q "build -tags verif: ok" $log; then v=CONFIRMED; ok="$ok $n"; else v=REJECTED; fi
+  elif [ -f $out/demo$n.go ]; then
+    ./seedverify_gorun.sh $out $n > $log 2>&1
+    if grep -q "build+vet: ok" $log && grep -q "build -tags verif: ok" $log && grep -q "repo tests failing lines: 0" $log && grep -q "DEMO-DIFFERS: yes" $log; then v=CONFIRMED; ok="$ok $n"; else v=REJECTED; fi
   else
     v="REJECTED (no demonstration)"; : > $log
   fi
